@@ -86,6 +86,9 @@ class Tokenizer:
         line = ""
         while True:
             tok = next(self._tokengen)
+            # these tokens never pass through peek(): remember their source lines for error display (string input only)
+            if not self._path and tok.start[0] not in self._lines:
+                self._lines[tok.start[0]] = tok.line
             if tok.type == Token.ENDMARKER:
                 raise SyntaxError(
                     "unexpected EOF while scanning macro arguments",
